@@ -53,8 +53,13 @@ func SignJSON(signingName string, keyID KeyID, privateKey ed25519.PrivateKey, me
 		return nil, err
 	}
 	signature := spec.Base64Bytes(ed25519.Sign(privateKey, canonical))
-	if _, ok := preserve.Signatures[signingName]; ok {
-		preserve.Signatures[signingName][keyID] = signature
+	// "signatures": null and "signatures": {"name": null} decode to nil maps: writing to them panics,
+	// and the object being signed may come from another server.
+	if preserve.Signatures == nil {
+		preserve.Signatures = map[string]map[KeyID]spec.Base64Bytes{}
+	}
+	if existing := preserve.Signatures[signingName]; existing != nil {
+		existing[keyID] = signature
 	} else {
 		preserve.Signatures[signingName] = map[KeyID]spec.Base64Bytes{
 			keyID: signature,
